@@ -10,12 +10,12 @@
 (*     against the acceptance sets of BTree.tla,                           *)
 (*   - the well-formedness of the dumped page structure and its agreement  *)
 (*     with the multimap.                                                  *)
-(* The scenario header carries the concrete key universe and the battery;  *)
-(* both must be the ones the specification defines (and the universe must  *)
-(* be strictly increasing in the specified key order), otherwise the       *)
-(* scenario is rejected ("header").  After the first mismatch of a         *)
-(* scenario the remaining events of that scenario are skipped (the state   *)
-(* of the real tree is unknown).                                           *)
+(* The scenario header names the key universe and the battery (schema,     *)
+(* size, stride); both are recomputed here from BTree.tla, and the         *)
+(* universe must be strictly increasing in the specified key order,        *)
+(* otherwise the scenario is rejected ("header").  After the first         *)
+(* mismatch of a scenario the remaining events of that scenario are        *)
+(* skipped (the state of the real tree is unknown).                        *)
 (***************************************************************************)
 EXTENDS BTree, Json, IOUtils, TLC
 
@@ -27,7 +27,7 @@ vars == <<m, hd, l, bad, cnt, synced>>
 \* hd = [nu, R, M] of the current scenario
 
 Zero == [ok |-> 0, skipped |-> 0, queries |-> 0, probed |-> 0,
-         new |-> 0, bulk |-> 0, ins_new |-> 0, ins_dup |-> 0, del_t |-> 0, del_f |-> 0, dels_t |-> 0, dels_f |-> 0,
+         new |-> 0, bulk |-> 0, seq |-> 0, ins_new |-> 0, ins_dup |-> 0, del_t |-> 0, del_f |-> 0, dels_t |-> 0, dels_f |-> 0,
          reload |-> 0, reopen |-> 0, look_hit |-> 0, look_miss |-> 0, range_nonempty |-> 0, range_empty |-> 0]
 Init == m = <<>> /\ hd = [nu |-> 0, R |-> <<>>, M |-> <<>>] /\ l = 1 /\ bad = <<>> /\ synced = TRUE /\ cnt = Zero
 
@@ -35,11 +35,12 @@ NBad(what) == Cardinality({ i \in 1..Len(bad) : bad[i].what = what })
 BadRec(e, what, want) == [sc |-> e.sc, i |-> e.i, a |-> e.a.a, what |-> what, exp |-> "ok", obs |-> e.out, dev |-> "", cfg |-> e.cfg, want |-> want]
 
 IsHdr(e) == e.a.a \in {"new", "bulk"}
-HeaderOk(a) == /\ a.schema \in Schemas /\ a.nu >= 3 /\ a.stride >= 1
-               /\ a.U = Univ(a.schema, a.nu)
-               /\ StrictlySorted(a.U)
-               /\ a.R = Ranges(a.nu, a.stride)
-               /\ a.M = Multis(a.nu)
+\* the universe and the battery are functions of (schema, nu, stride); the harness received them from the generator
+\* (MC_BTree, Mode "probes") and reports their sizes
+HeaderOk(e) == LET a == e.a IN
+               /\ a.schema \in Schemas /\ a.nu >= 3 /\ a.stride >= 1
+               /\ \E U \in { Univ(a.schema, a.nu) } : StrictlySorted(U)      \* (bound once: operator arguments are re-evaluated at every use)
+               /\ e.un = a.nu /\ e.rn = Len(Ranges(a.nu, a.stride)) /\ e.mn = Len(Multis(a.nu))
                /\ (a.a = "bulk" => /\ SortedEnts(a.ents)
                                    /\ \A i \in 1..Len(a.ents) : a.ents[i][1] \in Storable(a.schema, a.nu))
 
@@ -51,12 +52,12 @@ Step(e) ==
      /\ m' = <<>> /\ hd' = [nu |-> 0, R |-> <<>>, M |-> <<>>] /\ synced' = TRUE /\ UNCHANGED <<bad, cnt>>
   ELSE IF ~synced THEN
      /\ UNCHANGED <<m, hd, bad, synced>> /\ cnt' = [cnt EXCEPT !.skipped = @ + 1]
-  ELSE IF IsHdr(e) /\ ~HeaderOk(e.a) THEN
+  ELSE IF IsHdr(e) /\ ~HeaderOk(e) THEN
      /\ bad' = IF NBad("header") < MaxBad THEN Append(bad, BadRec(e, "header", <<>>)) ELSE bad
      /\ synced' = FALSE /\ UNCHANGED <<m, hd, cnt>>
   ELSE
   \* (bound variables of singleton sets: TLC evaluates each of them exactly once per event)
-  \E h1 \in { IF IsHdr(e) THEN [nu |-> e.a.nu, R |-> e.a.R, M |-> e.a.M] ELSE hd } :
+  \E h1 \in { IF IsHdr(e) THEN [nu |-> e.a.nu, R |-> Ranges(e.a.nu, e.a.stride), M |-> Multis(e.a.nu)] ELSE hd } :
   \E exp \in { Apply(m, e.a) } :
   \E probed \in { e.out = "ok" /\ e.a.pr } :
   \E fa \in { IF probed THEN FlatTo(exp.st, h1.nu) ELSE <<>> } :
@@ -101,6 +102,7 @@ Step(e) ==
                            !.probed = IF probed THEN @ + 1 ELSE @,
                            !.new = IF k = "new" THEN @ + 1 ELSE @,
                            !.bulk = IF k = "bulk" THEN @ + 1 ELSE @,
+                           !.seq = IF k = "seq" THEN @ + 1 ELSE @,
                            !.ins_new = IF k = "ins" /\ m[e.a.k] = <<>> THEN @ + 1 ELSE @,
                            !.ins_dup = IF k = "ins" /\ m[e.a.k] # <<>> THEN @ + 1 ELSE @,
                            !.del_t = IF k = "del" /\ exp.ret THEN @ + 1 ELSE @,
